@@ -3,7 +3,8 @@
 (* (member, kind of ordinary file operation, position on the time line, dedupe operation, size class) *)
 EXTENDS Integers, Sequences, FiniteSets, Json, IOUtils, TLC, SequencesExt
 Members == {"a", "b", "c"}            \* a = first listed (kept by default), b, c = dropped by default
-RealKinds == {"same-len", "other-len", "append", "truncate", "delete", "recreate", "dir", "symlink-dangling", "symlink-dir", "symlink-newer", "touch"}
+RealKinds == {"same-len", "other-len", "append", "truncate", "delete", "recreate", "dir", "symlink-dangling", "symlink-dir", "symlink-newer", "touch",
+              "symlink-sibling", "symlink-sibling-chain", "symlink-sibling-dotdot"}   \* the member becomes a link to ANOTHER member: directly, in two relative hops through a subdirectory, with `..`
 Positions == {"between", "mid1", "mid2", "mid3"}     \* midK = after the K-th close of the member by `group`
 Ops == {"remove", "hard", "soft", "reflink", "move"}
 Singles == {[edits |-> <<[f |-> f, kind |-> k, pos |-> p]>>, op |-> o] : f \in Members, k \in RealKinds, p \in Positions, o \in Ops}
